@@ -348,7 +348,40 @@ func (s *Styler) Value(v string, kind string) *Node {
 		n.Lines = addBlank(split(4))
 	case "double-multi":
 		n.Style = DoubleQ
-		n.Lines = addBlank(split(4))
+		if bs := rapid.IntRange(0, 3).Draw(t, s.lbl("bscont")); bs == 0 {
+			// escaped line breaks: no blank lines in this form
+			n.Lines = split(4)
+			n.BackslashCont = true
+			s.Used["dq-backslash-continuation"]++
+		} else if bs == 1 && len(v) > 3 {
+			// escaped line breaks inside words: the value is cut anywhere (not next to a space)
+			var cuts []int
+			for i := 1; i < len(v); i++ {
+				if v[i] != ' ' && v[i-1] != ' ' && v[i] < 0x80 && v[i-1] < 0x80 {
+					cuts = append(cuts, i)
+				}
+			}
+			if len(cuts) > 0 {
+				k := rapid.IntRange(1, min(5, len(cuts))).Draw(t, s.lbl("ncuts"))
+				chosen := map[int]bool{}
+				for i := 0; i < k; i++ {
+					chosen[rapid.SampledFrom(cuts).Draw(t, s.lbl("cut"))] = true
+				}
+				var frags []string
+				last := 0
+				for _, c := range cuts {
+					if chosen[c] {
+						frags = append(frags, v[last:c])
+						last = c
+					}
+				}
+				frags = append(frags, v[last:])
+				n.Lines, n.BackslashCont, n.Joinless = frags, true, true
+				s.Used["dq-backslash-continuation"]++
+			}
+		} else {
+			n.Lines = addBlank(split(4))
+		}
 	case "literal", "folded":
 		if pick == "literal" {
 			n.Style = Literal
